@@ -2,7 +2,7 @@
    cyc / ecyc are the op sequences of the six cycle functions (tied to the code by the exact op-trace);
    cycv is their functional reading over abstract per-level operators. *)
 From Coq Require Import List Arith Bool.
-From GMGP Require Import CycleDefs CycleProofs.
+From GMGP Require Import CycleDefs CycleProofs CycleRhs.
 Import ListNotations.
 
 (* started from the exact discrete solution a V-, W- or F-cycle returns it, for every number of levels
@@ -48,6 +48,14 @@ Theorem C10_cycle_writes : forall rem k d pre post x f r b,
   In b (all_writes (cyc k rem d pre post x f r)) -> b = x \/ b = r \/ (d < fst b /\ snd b <> Rhs).
 Proof. exact cyc_writes. Qed.
 
+(* the whole start-up + solver loop: no right-hand side of any level is ever written, for every configuration and oracle *)
+Theorem C10_solve_never_writes_rhs :
+  forall fmg fk iters k L pre post extrap combined has_exact tol fgs maxit oracle l,
+  ~ In (l, Rhs) (all_writes (init_ops fmg fk iters pre post extrap fgs L
+                             ++ fst (fst (solve_loop k L pre post extrap combined has_exact tol fgs 0%nat maxit oracle)))).
+Proof. exact solve_never_writes_rhs. Qed.
+
 Print Assumptions C10_cycle_fixes_exact_solution.
 Print Assumptions C10_cycle_ignores_scratch.
 Print Assumptions C10_ext_cycle_ignores_scratch.
+Print Assumptions C10_solve_never_writes_rhs.
